@@ -11,6 +11,7 @@ import (
 	"fmt"
 	"hash/crc32"
 	"os"
+	"strings"
 	"time"
 
 	"github.com/twmb/franz-go/pkg/kfake"
@@ -194,7 +195,19 @@ func (im *impl) hwm() int64 {
 
 func run() {
 	var im *impl
-	hx.RunLines(20*time.Second, func(t []string) string {
+	hx.RunLines(20*time.Second, func(t []string) (res string) {
+		defer func() {
+			if t[0] == "inc" {
+				hx.St.Inc("op.inc")
+			} else {
+				hx.St.Inc("op." + t[0] + "." + strings.Fields(res + " ?")[0])
+			}
+			if t[0] != "reset" && len(t) == 4 || t[0] == "inc" {
+				if a, b := hx.Atoi(t[len(t)-2]), hx.Atoi(t[len(t)-1]); a+b >= M {
+					hx.St.Inc("wraps." + t[0])
+				}
+			}
+		}()
 		switch t[0] {
 		case "inc":
 			return hx.Itoa(int64(kgo.VerifIncrementSequence(int32(hx.Atoi(t[1])), int32(hx.Atoi(t[2])))))
